@@ -418,3 +418,15 @@ func (v *Verdict) HasSig(sig string) bool {
 	}
 	return false
 }
+
+// Inflight writes the case that is about to be executed to a per-shard file so
+// that the driver can name it when the test process dies (a panic in a
+// goroutine the harness does not own cannot be recovered).
+func (c *Collector) Inflight(cs []byte) {
+	out := os.Getenv("VERIF_OUT")
+	if out == "" {
+		return
+	}
+	k, _ := Shard()
+	_ = os.WriteFile(filepath.Join(out, fmt.Sprintf("inflight-%s-%d.json", os.Getenv("VERIF_PHASE"), k)), cs, 0o644)
+}
